@@ -20,6 +20,13 @@ hmm-transl); a structural deep-copy freshness check of every Clone* method of th
 (go/parser inventory + reflective storage walk, harness --extra fresh); the write-set model extended by the
 scratch cells of the distribution objects (ModelScratch / ProofsScratch) and the scratch pass of go2coq_c17
 (Scratch_gen.v: receiver fields written by the evaluation methods x how Clone() produces them).
+Round 6: the per-thread partial sums of ALL batch estimators (scalarEstimator Categorical / Exponential / Geometric / NegativeBinomial /
+Normal / Poisson, vectorEstimator Normal): their description (allocation, initial value, updates in NewObservation, the fold in
+updateEstimate / estimateParameters) is regenerated from the Go source by go2coq_c17 -accum (Accum_gen.v), given a semantics
+(ModelAccum.acc_run) and decided (gaccum_ok); an accepted description returns the monoid sum for every pool size and schedule.
+Tie: harness/c17/accum.go drives the real Initialize / NewObservation / GetEstimate on real pools, logs the schedule per thread and
+CorrAccum.v replays it: bit-identical estimates for the two NormalEstimators on arbitrary binary64 data (acases_*.v).
+Below the schedule model: read / write steps interleaved arbitrarily (ModelThreads / ProofsThreads): owned cells lose no update.
 Supporting evidence (labelled so): a -race build of the same harness under a deadline.
 """
 import glob, json, os, shutil
@@ -29,22 +36,33 @@ TARGETS = ["Base/Corr.vo", "C17/Model.vo", "C17/Spec.vo", "C17/Sites.vo", "C17/C
            "C17/ProofsChunks.vo", "C17/ProofsErr.vo", "C17/ProofsSites.vo", "C17/Corr.vo", "C17/ModelCfg.vo", "C17/ProofsCfg.vo",
            "C17/CorrCfg.vo", "C17/SitesGenDefs.vo", "C17/Sites_gen.vo", "C17/ProofsSitesGen.vo",
            "C17/ModelScratch.vo", "C17/ScratchGenDefs.vo", "C17/Scratch_gen.vo", "C17/ProofsScratch.vo",
-           "C17/ModelErrFlow.vo", "C17/ProofsErrFlow.vo", "C17/ErrFlow_gen.vo", "C17/ProofsErrFlowGen.vo", "C17/CorrErrFlow.vo", "C17/Props.vo"]
+           "C17/ModelErrFlow.vo", "C17/ProofsErrFlow.vo", "C17/ErrFlow_gen.vo", "C17/ProofsErrFlowGen.vo", "C17/CorrErrFlow.vo",
+           "C17/ModelAccum.vo", "C17/Accum_gen.vo", "C17/ProofsAccum.vo", "C17/ProofsAccumGen.vo", "C17/CorrAccum.vo",
+           "C17/ModelThreads.vo", "C17/ProofsThreads.vo", "C17/Props.vo"]
 PROPS = ["C17/Props.v"]
-PARTIAL = ("Scheduling model, not a thread model: the theorems are about coq/C17/Model.v and ModelCfg.v (per-thread accumulators, lazy init "
-           "flags, the merge loops per configuration of the optional accumulators, AddRangeJob's chunk arithmetic, the error slot). Actual "
-           "interleavings, the Go memory model, deadlock freedom of Wait and the threadpool package itself (outside the library; assumed to "
-           "run every queued job exactly once on one thread id at a time) are not modelled; they are sampled by a -race build of the harness "
-           "under a deadline (supporting evidence only). Theorem (2) is about the access lists go2coq_c17 derives from the closures "
+PARTIAL = ("Scheduling model plus a read/write interleaving model of the accumulator statements (round 6: ModelThreads - every `acc[i] (+)= x` is a read "
+           "step and a write step, any interleaving, sequentially consistent memory: thread-owned cells lose no update; a shared cell does). The "
+           "theorems are about coq/C17/Model.v, ModelCfg.v, ModelAccum.v, ModelThreads.v (per-thread accumulators, lazy init flags, the merge "
+           "loops per configuration of the optional accumulators, the batch estimators' partial sums as DESCRIBED by go2coq_c17 -accum, "
+           "AddRangeJob's chunk arithmetic, the error slot). The Go memory model itself (data-race freedom => sequential consistency), "
+           "deadlock freedom of Wait and the threadpool package (outside the library; assumed to run every queued job exactly once on one "
+           "thread id at a time - checked at run time on every batch case: the per-thread logs must form a schedule) are not modelled; they are "
+           "sampled by a -race build of the harness under a deadline (supporting evidence only). Theorem (2) is about the access lists go2coq_c17 derives from the closures "
            "(assignments and method calls, same-package callees followed to depth 4): writes behind function values or interface methods "
            "and writes a callee makes through an argument are not listed (F-SAGA-THETA-RACE is of that kind and is seen by the race detector only). "
+           "The accumulator pass (~350 lines go/ast, no type checker) recognises the coding pattern of the seven batch estimators (make(T, p.NumberOfThreads()), "
+           "literal initial values, `F[id] = LogAdd(F[id], c)` / `+=` / `++`, counting loops folding F[i]); a batch estimator written differently is reported "
+           "as not accepted, not silently skipped, but a per-thread accumulator that is not a slice field allocated in Initialize is not seen by this pass "
+           "(the delegating estimators LogTransform / Translation / Delta / ScalarBatchId / VectorBatchId have none). The contributions themselves "
+           "(math.Log(x), g + log x, exp(gamma - gamma_max)) are not modelled: the Coq replay takes Go's exp(gamma) as the weight. "
            "Over floats the merged value depends on the reduction order: equality is proved over exact commutative monoids "
-           "(R, Q, log-add on R u {-inf}); on binary64 the check demands equality when all partial sums are exactly "
-           "representable (decided in Coq) and |go - sum| <= n*2^-52*sum|c_j| otherwise; log-add results within 1e-9 "
-           "(certified by Coq-Interval for one pool per configuration, compared with the sequential run elsewhere). SAGA logistic regression "
+           "(R, Q, N, log-add on R u {-inf}); on binary64 the check demands equality when all partial sums are exactly "
+           "representable (decided in Coq) and |go - sum| <= n*2^-52*sum|c_j| otherwise, and - round 6, batch interface of the two NormalEstimators - "
+           "bit-identity with the model run on the OBSERVED schedule; log-add results within 1e-9 "
+           "(certified by Coq-Interval for one pool per configuration, compared with the sequential run elsewhere; the log-domain batch estimators "
+           "are compared with the sequential run at 1e-9, not recomputed). SAGA logistic regression "
            "partitions the data by pool size and averages: its result depends on the pool size by design; its partition is proved and tied, its "
            "estimate is compared bit for bit with the same partition executed sequentially (up to 6 attempts because of F-SAGA-THETA-RACE). "
-           "The Baum-Welch configuration without transitions panics (F-BW-NOTRANS-NILDEREF) and is driven on the pool of one thread only. "
            "matrixEstimator / vectorEstimator mixtures and HMMs, ShapeHmm and the NumericEstimator parameters are compared across pools "
            "(1e-9, NumericEstimator 1e-6), not recomputed by the model. Round 3: freshness of per-thread clones is a hypothesis of the scratch-cell "
            "theorem (fresh_clones_give_disjoint_write_sets) and is decided for the library in two independent ways, neither a proof about Go: "
@@ -52,8 +70,8 @@ PARTIAL = ("Scheduling model, not a thread model: the theorems are about coq/C17
            "Edist[i] cloned in a loop are not classified) and reflectively on run-time objects built by harness/c17/fresh.go (one nested instance per "
            "type with a Clone* method; every pointer / slice / map storage reachable from both original and clone is reported; the constraint lists "
            "of ChmmTransitionMatrix and the tree of HhmmTransitionMatrix are shared but written only by their constructors - documented immutable). "
-           "Composite models: batch evaluation compared bitwise with direct sequential LogPdf calls; composite estimations across pools at 1e-9; "
-           "HMMs over vector mixtures cannot be estimated at all (F-VMIX-SETPARAMS-RECURSION) and are not driven.")
+           "Composite models: batch evaluation compared bitwise with direct sequential LogPdf calls; composite estimations across pools at 1e-9. "
+           "F-BW-NOTRANS-NILDEREF and F-VMIX-SETPARAMS-RECURSION are fixed at /repo HEAD (25c790a, 44820ea): the matchers stay, they no longer fire.")
 
 SITE_OF = {"em-opt": "statistics/generic/mixture_em.go EmStep (option matrix)", "bw-opt": "statistics/generic/hmm_baumWelch.go BaumWelchStep (option matrix)",
            "saga": "statistics/vectorEstimator/logisticRegression.go sagaLogisticRegressionL1", "numeric": "statistics/scalarEstimator/numeric.go Estimate",
@@ -62,12 +80,13 @@ SITE_OF = {"em-opt": "statistics/generic/mixture_em.go EmStep (option matrix)", 
            "chunks": "threadpool AddRangeJob", "bw-err": "BaumWelchStep error path", "em-err": "EmStep error path",
            "x": "scalar/vector estimators Estimate", "full": "vectorEstimator.HmmEstimator / scalarEstimator.MixtureEstimator",
            "comp": "XxxStdDataSet.EvaluateLogPdf on composite emissions (per-thread clones of stateful distributions)",
+           "batch": "scalarEstimator / vectorEstimator batch interface: Initialize, NewObservation (per-thread partial sums), GetEstimate (the fold)",
            "errflow": "error path of the estimators through the pool (results of AddJob / AddRangeJob / Wait and of the calls above and below them)"}
 
 
 # ---------------------------------------------------------------- access lists derived from the Go source
 
-def private_tree(ctx, gen_text, scratch_text=None, errflow_text=None):
+def private_tree(ctx, gen_text, scratch_text=None, errflow_text=None, accum_text=None):
     """REPO is redirected and its job closures differ from the committed Sites_gen.v: compile Base + C17 with the
     regenerated file in a private tree under ctx.dir (the shared coq/ tree is left alone)."""
     root = os.path.join(ctx.dir, "coq")
@@ -80,6 +99,8 @@ def private_tree(ctx, gen_text, scratch_text=None, errflow_text=None):
         open(os.path.join(root, "C17", "Scratch_gen.v"), "w").write(scratch_text)
     if errflow_text is not None:
         open(os.path.join(root, "C17", "ErrFlow_gen.v"), "w").write(errflow_text)
+    if accum_text is not None:
+        open(os.path.join(root, "C17", "Accum_gen.v"), "w").write(accum_text)
     return root
 
 
@@ -93,8 +114,9 @@ def translate(ctx):
     rep = os.path.join(ctx.dir, "sites_gen_report.json")
     sgen = os.path.join(ctx.dir, "Scratch_gen.v")
     egen = os.path.join(ctx.dir, "ErrFlow_gen.v")
-    rc, out = vlib.sh([tool, "-repo", vlib.REPO, "-out", gen, "-scratch", sgen, "-errflow", egen, "-report", rep], timeout=120, env=vlib.go_env())
-    if rc != 0 or not os.path.exists(gen) or not os.path.exists(rep) or not os.path.exists(sgen) or not os.path.exists(egen):
+    agen = os.path.join(ctx.dir, "Accum_gen.v")
+    rc, out = vlib.sh([tool, "-repo", vlib.REPO, "-out", gen, "-scratch", sgen, "-errflow", egen, "-accum", agen, "-report", rep], timeout=120, env=vlib.go_env())
+    if rc != 0 or not os.path.exists(gen) or not os.path.exists(rep) or not os.path.exists(sgen) or not os.path.exists(egen) or not os.path.exists(agen):
         ctx.oblige(1, 0)
         return [{"target": "go2coq_c17 run", "lemma": None, "errors": [out[-1500:]]}]
     report = json.load(open(rep))
@@ -103,6 +125,16 @@ def translate(ctx):
     new = open(gen).read()
     snew = open(sgen).read()
     enew = open(egen).read()
+    anew = open(agen).read()
+    acommitted_path = os.path.join(vlib.ROOT, "coq", "C17", "Accum_gen.v")
+    acommitted = open(acommitted_path).read() if os.path.exists(acommitted_path) else ""
+    ests = report.get("estimators") or []
+    ctx.cov["accumulator_inventory"] = {
+        "batch_estimator_types": len(ests), "changed": anew != acommitted,
+        "accumulators": ["%s.%s.%s" % (e["pkg"], e["type"], f["field"]) for e in ests for f in (e.get("fields") or [])
+                         if f.get("len_threads") or f.get("updates")],
+        "updates": sum(len(f.get("updates") or []) for e in ests for f in (e.get("fields") or [])),
+        "folds": sum(len(f.get("merges") or []) for e in ests for f in (e.get("fields") or []))}
     ecommitted_path = os.path.join(vlib.ROOT, "coq", "C17", "ErrFlow_gen.v")
     ecommitted = open(ecommitted_path).read() if os.path.exists(ecommitted_path) else ""
     scopes = [s_ for s_ in (report.get("errscopes") or []) if s_.get("relevant")]
@@ -122,8 +154,10 @@ def translate(ctx):
     ctx.cov["access_lists"]["clone_fields"] = len(report.get("clone_fields") or [])
     ctx.cov["access_lists"]["clone_fields_not_fresh"] = [c for c in (report.get("clone_fields") or []) if not c.get("Fresh")]
     ctx.cov["access_lists"]["scratch_changed"] = snew != scommitted
-    if new != committed or snew != scommitted or enew != ecommitted:
+    if new != committed or snew != scommitted or enew != ecommitted or anew != acommitted:
         if os.path.abspath(vlib.REPO) == "/repo":
+            if anew != acommitted:
+                open(acommitted_path, "w").write(anew)
             if enew != ecommitted:
                 open(ecommitted_path, "w").write(enew)
             if new != committed:
@@ -132,8 +166,8 @@ def translate(ctx):
                 open(scommitted_path, "w").write(snew)
             ctx.log("Sites_gen.v / Scratch_gen.v regenerated from %s differ from the previous ones: the write-set theorems are re-checked against them" % vlib.REPO)
         else:
-            vlib.COQ = private_tree(ctx, new, snew, enew)
-            ctx.log("Sites_gen.v / Scratch_gen.v / ErrFlow_gen.v regenerated from %s differ: proofs re-checked in private tree %s" % (vlib.REPO, vlib.COQ))
+            vlib.COQ = private_tree(ctx, new, snew, enew, anew)
+            ctx.log("Sites_gen.v / Scratch_gen.v / ErrFlow_gen.v / Accum_gen.v regenerated from %s differ: proofs re-checked in private tree %s" % (vlib.REPO, vlib.COQ))
     return [] if report.get("ok") else [{"target": "go2coq_c17 (no job closure found or parse errors)", "lemma": None,
                                         "errors": [json.dumps(report.get("parse_errors"))[:1500]]}]
 
@@ -154,6 +188,16 @@ def errflow_offenders(ctx):
                           "Eval vm_compute in (flat_map escope_offenders gen_errscopes).\n"
                           "Eval vm_compute in (errflow_coverage gen_errscopes).\n"
                           "Eval vm_compute in (filter (fun k => negb (known_present gen_errscopes k)) known_losses).\n")
+    rc, out = vlib.coqc_file(path, timeout=300)
+    return " ".join(out.split())[-2500:]
+
+
+def accum_offenders(ctx):
+    """The per-thread accumulators whose description the decision rejects / the expected ones that are gone (printed by Coq)."""
+    path = os.path.join(ctx.dir, "Offenders_C17_accum.v")
+    open(path, "w").write("From Coq Require Import List String Bool.\nFrom ADV Require Import C17.ModelAccum C17.Accum_gen.\n"
+                          "Eval vm_compute in (accum_offenders gen_estimators).\n"
+                          "Eval vm_compute in (flat_map (fun e => filter (fun a => is_accumulator a && negb (gaccum_ok a)) (e_acc e)) gen_estimators).\n")
     rc, out = vlib.coqc_file(path, timeout=300)
     return " ".join(out.split())[-2500:]
 
@@ -297,6 +341,21 @@ def errflow_stage(ctx, binary):
     return fails, seeds
 
 
+def batch_seeds():
+    """Configurations of the batch interface on which every thread of a pool of 4 holds exactly one partial sum (mode spread),
+    unweighted and weighted, for every estimator kind: the hunt starts from them when the accumulator decision breaks."""
+    xs = {"normal": [1.5, -2.25, 3.0, 0.5, 4.0, -1.0, 2.0, 6.5], "vnormal": [1.0, 2.0, -1.5, 0.5, 3.0, -2.0, 0.25, 4.0, 2.5, 1.0, -3.0, 2.0, 5.0, 0.5, -1.0, -4.0],
+          "exponential": [0.5, 1.25, 2.0, 3.5, 0.75, 6.0, 1.0, 4.0], "poisson": [0, 3, 1, 7, 2, 5, 4, 9], "geometric": [0, 3, 1, 7, 2, 5, 4, 9],
+          "categorical": [0, 1, 2, 3, 3, 2, 1, 1], "negbin": [1, 3, 2, 7, 2, 5, 4, 9]}
+    g = [-0.5, -1.25, 0.0, -2.0, -0.25, -3.0, -1.0, -0.75]
+    out = []
+    for kind, x in xs.items():
+        for w in (None, g):
+            out.append({"site": "batch", "pool": {"k": 4, "buf": 100, "nested": 0},
+                        "batch": {"kind": kind, "x": x, "d": 2, "g": w, "sigma_min": 1e-8, "spread": True}})
+    return out
+
+
 def shards_of(ctx, stem):
     return sorted(glob.glob(os.path.join(ctx.dir, stem + "_*.v")), key=lambda p: int(p.rsplit("_", 1)[1][:-2]))
 
@@ -327,7 +386,7 @@ def corr(ctx, binary, n, corpus):
         return [], []
     meta = json.load(open(os.path.join(ctx.dir, "cases.meta.json")))
     vlib.merge_meta(ctx, meta)
-    cases, tols, rc_, rt_, ext = eval_all(ctx, "cases", ("ocases", "sagacases", "ecases"))
+    cases, tols, rc_, rt_, ext = eval_all(ctx, "cases", ("ocases", "sagacases", "ecases", "acases"))
     # a shard that produced neither a result nor a Coq error (killed / timed out on an overloaded machine) is evaluated once more, alone
     def again(rs):
         for i, r in enumerate(rs):
@@ -363,7 +422,7 @@ def corr(ctx, binary, n, corpus):
                         "out": {"what": t["what"], "go": t["go"]}})
     # option-matrix and SAGA shards
     nextra = 0
-    for stem in ("ocases", "sagacases", "ecases"):
+    for stem in ("ocases", "sagacases", "ecases", "acases"):
         mp = os.path.join(ctx.dir, stem + ".meta.json")
         if not os.path.exists(mp):
             ctx.oblige(1, 0)
@@ -564,6 +623,7 @@ def tp_probe(ctx, binary):
 def run(ctx):
     ctx.cov["trusted_base"] = vlib.TRUSTED_BASE_COMMON + [
         "go2coq_c17 scratch pass (~350 lines, go/ast): trusted to list the receiver fields an evaluation method writes (assignments, non-read-only method calls on the field or a local alias, destination-argument convention) and to classify how Clone() produces them (call = fresh / copy); the reflective freshness check of harness/c17/fresh.go decides the same question on run-time objects independently",
+        "go2coq_c17 accumulator pass (~350 lines, go/ast): trusted to list the slices Initialize allocates per thread, their updates in NewObservation and the loops folding them (operator, transfer, first index, bound, initial target); a fold it does not recognise makes the decision fail (OOther / IOther), it is not skipped",
         "go2coq_c17 (~600 lines of Go, go/parser + go/ast, no type checker): trusted to list the assignments and method calls of the job closures and of the same-package callees it follows; accesses through function values, interface methods and arguments written by a callee are not followed",
         "the threadpool package github.com/pbenner/threadpool (outside the library): assumed to execute every queued job exactly once; its AddRangeJob chunking is probed and compared with the model",
         "Coq-Interval (interval tactic) for the certified log-add comparisons",
@@ -589,6 +649,13 @@ def run(ctx):
             if f["target"] in ("C17/ProofsErrFlowGen.vo", "C17/ErrFlow_gen.vo"):
                 f["errors"] = (f.get("errors") or []) + [{"error_results_not_propagated": off}]
         ctx.log("error-flow obligation fails on the generated inventory (an error result is not propagated): " + off[:800])
+    aproof_broken = any(f["target"] in ("C17/ProofsAccumGen.vo", "C17/Accum_gen.vo") for f in failures)
+    if aproof_broken:
+        off = accum_offenders(ctx)
+        for f in failures:
+            if f["target"] in ("C17/ProofsAccumGen.vo", "C17/Accum_gen.vo"):
+                f["errors"] = (f.get("errors") or []) + [{"rejected_accumulators": off}]
+        ctx.log("accumulator decision fails on the generated description (a per-thread partial sum is lost, counted twice or not thread-owned): " + off[:800])
     if any(f["target"] == "C17/ProofsSitesGen.vo" for f in failures):
         off = write_set_offenders(ctx)
         for f in failures:
@@ -643,13 +710,15 @@ def run(ctx):
         seeds = [{"site": "errflow", "pool": f.get("pool"), "errflow": f["config"]["errflow"]} for f in efails if f.get("config")]
         if eproof_broken or efails:
             seeds += eseeds
+        if aproof_broken:
+            seeds = batch_seeds() + seeds
         seeds += list(bad)
         for f in rfails:
             if f.get("config"):
                 c = f["config"]
                 seeds.append({"site": c.get("site"), "pool": f.get("pool", {"k": 4}), "em": c.get("em"), "bw": c.get("bw"),
                               "normal": c.get("normal"), "x": c.get("x"), "full": c.get("full"), "saga": c.get("saga"),
-                              "numeric": c.get("numeric"), "comp": c.get("comp"), "errflow": c.get("errflow")})
+                              "numeric": c.get("numeric"), "comp": c.get("comp"), "errflow": c.get("errflow"), "batch": c.get("batch")})
         h = hunt(ctx, binary, seeds, 300 if quick else 3000)
     else:
         h = hunt(ctx, binary, [], 150 if quick else 1500)
@@ -726,8 +795,8 @@ def replay(ctx, path):
         print(out[-2000:])
         return 2
     h = json.load(open(os.path.join(ctx.dir, "hunt.json")))
-    cases, tols, rc_, rt_, ext = eval_all(ctx, "replay", ("oreplay", "sreplay"))
-    agree = all(r["ok"] for r in rc_ + rt_ + ext.get("oreplay", []) + ext.get("sreplay", []))
+    cases, tols, rc_, rt_, ext = eval_all(ctx, "replay", ("oreplay", "sreplay", "areplay"))
+    agree = all(r["ok"] for r in rc_ + rt_ + ext.get("oreplay", []) + ext.get("sreplay", []) + ext.get("areplay", []))
     print("model recomputation agrees with the implementation on this configuration: %s" % agree)
     print("parallel vs sequential oracle over 200 schedules: %s" % (h["failure"] if h.get("found") else "holds"))
     return 1 if (h.get("found") or not agree or raced) else 0
